@@ -55,8 +55,8 @@ def gen_intersect_cases(rng, tier, kinds=INTERSECT_KINDS):
             for k in kinds:
                 if tier != "thorough" and rng.random() < 0.5:
                     continue
-                ls = rng.choice([1, 1, 1, 2, 3]) if k not in ("adjacent",) else 1
-                rs = rng.choice([1, 1, 1, 2, 3]) if k not in ("adjacent",) else 1
+                ls = rng.choice([1, 1, 1, 2, 3, -1, -2])
+                rs = rng.choice([1, 1, 1, 2, 3, -1])
                 cases.append({"k": k, "l": l, "r": r, "mask": mask, "ls": ls, "rs": rs})
     # gallop-depth sweep: the hit lands at every offset inside the last jump
     maxd = {"quick": 7, "thorough": 10, "search": 8}[tier]
@@ -91,8 +91,8 @@ def gen_intersect_cases(rng, tier, kinds=INTERSECT_KINDS):
         l, r = arr(), arr()
         for k in kinds:
             if rng.random() < 0.6:
-                ls = rng.choice([1, 1, 2, 5]) if k != "adjacent" else 1
-                rs = rng.choice([1, 1, 2, 5]) if k != "adjacent" else 1
+                ls = rng.choice([1, 1, 2, 5, -1])
+                rs = rng.choice([1, 1, 2, 5, -3])
                 cases.append({"k": k, "l": l, "r": r, "mask": mask, "ls": ls, "rs": rs})
     return cases
 
@@ -216,9 +216,14 @@ def gen_linear_cases(rng, tier):
 # implementation side
 # ---------------------------------------------------------------------------------------------
 def _np_arr(vals, stride=1, pad=None):
+    """stride 1 = a fresh contiguous array; k > 1 = the view a[::k] of a larger buffer; k < 0 = a REVERSED view
+    (negative byte stride) whose logical content is vals"""
     import numpy as np
     if stride == 1 and pad is None:
         return np.array(vals, dtype=np.uint64)
+    if stride < 0:
+        fwd = _np_arr(list(reversed(vals)), -stride if stride != -1 else 2)
+        return fwd[::-1]
     big = np.full(len(vals) * stride + 1, 0xDEADBEEFDEADBEEF, dtype=np.uint64)
     big[0:len(vals) * stride:stride] = np.array(vals, dtype=np.uint64)
     return big[0:len(vals) * stride:stride]
